@@ -177,11 +177,11 @@ impl<'a> Gen<'a> {
 }
 
 /// (prefix, branch A, branch B) -> the three programs: both branches, only A, only B.
-fn programs(prefix: &[G], a: &[G], b: &[G], three: Option<&[G]>) -> (Program, Vec<Program>) {
-    let nq = 3;
+fn programs(nq: u32, prefix: &[G], a: &[G], b: &[G], three: Option<&[G]>, suffix: &[G]) -> (Program, Vec<Program>) {
     let mk = |clauses: Vec<Vec<G>>| {
         let mut body = prefix.to_vec();
         body.push(G::Conde(clauses));
+        body.extend(suffix.iter().cloned());
         body.push(G::Observe(0));
         Program { nq, defs: vec![], body }
     };
@@ -193,13 +193,16 @@ fn programs(prefix: &[G], a: &[G], b: &[G], three: Option<&[G]>) -> (Program, Ve
     (mk(all), alone)
 }
 
-fn split(p: &Program) -> Option<(Vec<G>, Vec<Vec<G>>)> {
+/// prefix, conde clauses, suffix (goals between the conde and the observer: ONE goal object each,
+/// reached by the states of every branch).
+fn split(p: &Program) -> Option<(Vec<G>, Vec<Vec<G>>, Vec<G>)> {
     let n = p.body.len();
-    if n < 2 {
+    if n < 2 || !matches!(p.body[n - 1], G::Observe(_)) {
         return None;
     }
-    match (&p.body[n - 2], &p.body[n - 1]) {
-        (G::Conde(cs), G::Observe(_)) => Some((p.body[..n - 2].to_vec(), cs.clone())),
+    let at = p.body.iter().rposition(|g| matches!(g, G::Conde(_)))?;
+    match &p.body[at] {
+        G::Conde(cs) => Some((p.body[..at].to_vec(), cs.clone(), p.body[at + 1..n - 1].to_vec())),
         _ => None,
     }
 }
@@ -253,6 +256,8 @@ impl Check for C10Check {
     fn generate(&self, seed: u64, index: u64, _tier: Tier) -> Case {
         let mut st = streams(seed, "C10", index);
         let fd = st.workload.chance(1, 2);
+        let mut suffix: Vec<G> = vec![];
+        let mut nq = 3;
         let (prefix, a, b, c) = {
             let mut g = Gen {
                 w: &mut st.workload,
@@ -262,13 +267,39 @@ impl Check for C10Check {
                 fd,
                 vars: vec![0, 1, 2],
             };
-            let prefix = g.prefix();
+            let mut prefix = g.prefix();
             let a = g.branch(1);
             let b = g.branch(2);
             let c = if g.w.chance(1, 4) { Some(g.branch(3)) } else { None };
+            if !fd && g.w.chance(1, 5) {
+                // A structure around the shared variables is built before the branches bind them,
+                // and ONE project goal after the conde reads it in the states of every branch.
+                let (s, out) = (3, 4);
+                let (x, y) = (*g.w.pick(&g.vars), *g.w.pick(&g.vars));
+                let shape = match g.w.below(4) {
+                    0 => T::list(vec![T::V(x)]),
+                    1 => T::list(vec![T::V(x), T::V(y)]),
+                    2 => T::cmp(0, T::V(x), T::V(y)),
+                    _ => T::list(vec![T::I(0), T::list(vec![T::V(x)])]),
+                };
+                prefix.insert(0, G::Eq(T::V(s), shape));
+                let body = match g.w.below(3) {
+                    0 => vec![G::Conde(vec![
+                        vec![G::Prim(PFn::IsGround, T::V(s), T::Nil), G::Eq(T::V(out), T::S("ground".into()))],
+                        vec![G::Eq(T::V(out), T::S("any".into()))],
+                    ])],
+                    1 => vec![G::Conde(vec![
+                        vec![G::Prim(PFn::HeadSquare, T::V(s), T::V(out))],
+                        vec![G::Eq(T::V(out), T::S("any".into()))],
+                    ])],
+                    _ => vec![G::Eq(T::V(out), T::V(s))],
+                };
+                nq = 5;
+                suffix.push(G::Project(vec![s], body));
+            }
             (prefix, a, b, c)
         };
-        let (program, _) = programs(&prefix, &a, &b, c.as_deref());
+        let (program, _) = programs(nq, &prefix, &a, &b, c.as_deref(), &suffix);
         // stateless schedules only: a branch must see the same iteration orders alone and beside
         // its sibling, so that nothing but a leak can make its answers differ
         let s = &mut st.schedule;
@@ -302,18 +333,25 @@ impl Check for C10Check {
 
     fn valid(&self, case: &Case) -> bool {
         valid::program_ok(&case.program)
-            && case.program.nq == 3
+            && (case.program.nq == 3 || case.program.nq == 5)
             && matches!(case.cfg.policy, Policy::Identity | Policy::Reverse | Policy::Rotate(_) | Policy::Keyed)
             && match split(&case.program) {
-                Some((_, cs)) => cs.len() >= 2 && cs.len() <= 3,
+                Some((_, cs, suffix)) => {
+                    cs.len() >= 2
+                        && cs.len() <= 3
+                        && suffix.iter().all(|g| matches!(g, G::Project(..)))
+                        && !cs.iter().flatten().any(|g| g.any(|x| matches!(x, G::Project(..) | G::Prim(..))))
+                }
                 None => false,
             }
-            && !case.program.any(|g| matches!(g, G::Project(..) | G::Prim(..) | G::Anyo(_) | G::Conda(_) | G::Condu(_) | G::Onceo(_)))
+            && !case.program.any(|g| matches!(g, G::Anyo(_) | G::Conda(_) | G::Condu(_) | G::Onceo(_)))
             && !crate::refint::is_infinite(&case.program)
     }
 
     fn rule(&self) -> String {
-        "case = prefix P (disequalities, or FD domains + distinctfd/ltefd, a user tag) followed by conde { A, B [, C] } whose \
+        "case = prefix P (disequalities, or FD domains + distinctfd/ltefd, a user tag; in a tenth of the cases also a structure \
+         around the shared variables, read by ONE project goal placed after the conde, so that the states of every branch reach \
+         the same goal object) followed by conde { A, B [, C] } whose \
          branches post == / != / FD goals, domain narrowings and user tags on the three shared query variables, with \
          simulated leaf suspensions between their goals so that the siblings' steps interleave in many patterns; x stateless \
          schedule (identity / reverse / rotate / keyed iteration order, yields) applied unchanged to every run; x a fork point. \
@@ -328,12 +366,12 @@ impl Check for C10Check {
     fn run(&self, case: &Case) -> CaseResult {
         let mut facts = Facts::default();
         crate::checks::c06::fault_facts(&case.program, &mut facts);
-        let (prefix, clauses) = match split(&case.program) {
+        let (prefix, clauses, suffix) = match split(&case.program) {
             Some(x) => x,
             None => return CaseResult { verdict: Verdict::Inconclusive("malformed".into()), facts },
         };
         let third = clauses.get(2).map(|c| c.as_slice());
-        let (full, alone) = programs(&prefix, &clauses[0], &clauses[1], third);
+        let (full, alone) = programs(case.program.nq, &prefix, &clauses[0], &clauses[1], third, &suffix);
         let fork_after = case.extra["fork_after"].as_u64().unwrap_or(0) as usize;
         let whole = run_states(&full, &case.cfg, 100_000, Some(fork_after));
         facts.trace_hash = crate::rng::mix(&[whole.stats.trace_hash, fork_after as u64]);
